@@ -1,4 +1,5 @@
 import Bxh.Proofs.LedgerLemmas
+import Bxh.Proofs.LedgerReads
 /-!
 # C13 — reads return the latest write through dirty set, cache, database and reopen
 Theorems about `Bxh.Ledger` (model of SimpleLedger / SimpleAccount / AccountCache).
@@ -68,5 +69,48 @@ theorem C13_exists_iff_nonempty (v : Bytes) : present v = true ↔ ∃ s, v = so
   | some s => simp [present]
 
 theorem C13_empty_write_is_absent : present (some "") = false ∧ present none = false := by decide
+
+/-! ## Across the end of a block: account cache, database, reopen -/
+
+/-- **through the account cache**: after `FlushDirtyData` dropped the block's account objects, a key the block wrote in a
+modified account reads back as the value written last — before any `Commit`, whatever the database holds -/
+theorem C13_read_after_flush (H : RootPre → String) (l : L) (a : Addr) (acc : Acct) (k : String) (v : Bytes)
+    (hnd : (l.accounts.map (·.1)).Nodup) (hmem : (a, acc) ∈ l.accounts)
+    (hd : (journalOf l a acc).1.isSome = true)
+    (hk : ∃ p ∈ acc.dirtyState, p.1 = k) (hv : ∀ p ∈ acc.dirtyState, p.1 = k → p.2 = v) :
+    (getState (flush H l).1 a k).2 = v :=
+  read_after_flush H l a acc k v hnd hmem hd hk hv
+
+/-- **through the database and a reopen**: after `Commit` and `NewSimpleLedger` on the same database (no caches left) the
+same read returns the same bytes -/
+theorem C13_read_after_commit_reopen (H : RootPre → String) (l l1 l2 : L) (h : Nat) (a : Addr) (acc : Acct) (k : String) (v : Bytes)
+    (hnd : (l.accounts.map (·.1)).Nodup) (hmem : (a, acc) ∈ l.accounts)
+    (hd : (journalOf l a acc).1.isSome = true)
+    (hk : ∃ p ∈ acc.dirtyState, p.1 = k) (hv : ∀ p ∈ acc.dirtyState, p.1 = k → p.2 = v)
+    (horigin : ((KV.get acc.originState k).getD none).getD "" = (KV.get l.db.state (a, k)).getD "")
+    (hc : commit (flush H l).1 h (flush H l).2 = some l1) (hr : reopen l1 = some l2) :
+    ((getState l2 a k).2).getD "" = v.getD "" :=
+  read_after_commit_reopen H l l1 l2 h a acc k v hnd hmem hd hk hv horigin hc hr
+
+-- non-vacuity: the example ledger of C12 (account 1 deletes `k` and writes `k2`) meets the hypotheses for both keys
+section Example
+def exI15 : Inner := { nonce := 1, balance := 5 }
+def exI27 : Inner := { nonce := 2, balance := 7 }
+def exBj3 : BlockJournal := { entries := [], root := "r3" }
+def exDb : DB := { acct := [(1, exI15)], state := [((1, "k"), "v")], journals := [(3, exBj3)], minH := 3, maxH := 3 }
+def exAcc1 : Acct := { originAcc := some exI15, dirtyAcc := some exI27, originState := [("k", some "v"), ("k2", none)], dirtyState := [("k", none), ("k2", some "w")] }
+def exL : L := { accounts := [(1, exAcc1)], db := exDb, minJ := 3, maxJ := 3, prevRoot := "r3" }
+def exH : RootPre → String := fun _ => "r4"
+
+example : (exL.accounts.map (·.1)).Nodup ∧ (1, exAcc1) ∈ exL.accounts ∧ (journalOf exL 1 exAcc1).1.isSome = true ∧
+    (∃ p ∈ exAcc1.dirtyState, p.1 = "k2") ∧ (∀ p ∈ exAcc1.dirtyState, p.1 = "k2" → p.2 = some "w") ∧
+    (getState (flush exH exL).1 1 "k2").2 = some "w" ∧ (getState (flush exH exL).1 1 "k").2 = none := by
+  refine ⟨by decide, by decide, by decide, ⟨("k2", some "w"), by decide, rfl⟩, ?_, by decide, by decide⟩
+  intro p hp hk
+  simp only [exAcc1, List.mem_cons, List.mem_nil_iff, or_false] at hp
+  rcases hp with rfl | rfl
+  · exact absurd hk (by decide)
+  · rfl
+end Example
 
 end Bxh.Props.C13
